@@ -208,7 +208,9 @@ pub fn mutation_strategy() -> impl Strategy<Value = Mutation> {
     (0u8..14, any::<u16>(), any::<u16>()).prop_map(|(kind, pos, arg)| Mutation { kind, pos, arg })
 }
 
-const INTERESTING_BYTES: &[u8] = b" \t\r\n0123456789-+cpvs{};ailobjf\x00\x80\xff\x7f";
+// separators, digits, keyword letters, and the neighbours of the digit / letter / blank ranges
+// (what a SWAR range test gets wrong first)
+const INTERESTING_BYTES: &[u8] = b" \t\r\n0123456789-+cpvs{};ailobjf\x00\x80\xff\x7f/:@`[Gg\x8a\x8d\xa0\x0b\x1f!";
 
 /// Applies one mutation; token-level mutations use the token map of the original rendering and
 /// are skipped (byte-level fallback) once the map is stale.
@@ -682,6 +684,34 @@ pub fn input_for_spec(spec: Spec, max_items: usize, with_hostile: bool) -> Boxed
             class: "prefixed".into(),
         }
     });
+    // BTOR2: constants whose text is only a candidate (characters next to the digit ranges), as raw
+    // text - the scanners have to agree on where the constant ends however the bytes arrive
+    let candidates = (
+        proptest::collection::vec(
+            (
+                prop_oneof![Just("const"), Just("constd"), Just("consth")],
+                "[0-9a-fA-F@`gG/:-]{1,14}",
+                prop_oneof![3 => Just(""), 1 => Just(" sym"), 1 => Just(" ; c"), 1 => Just("@"), 1 => Just("`0")],
+            ),
+            1..4,
+        ),
+        any::<bool>(),
+    )
+        .prop_map(move |(lines, final_newline)| {
+            let mut text = String::from("1 sort bitvec 8\n");
+            for (i, (kw, payload, tail)) in lines.iter().enumerate() {
+                text.push_str(&format!("{} {kw} 1 {payload}{tail}\n", i + 2));
+            }
+            if !final_newline {
+                text.pop();
+            }
+            Input {
+                spec,
+                bytes: text.into_bytes(),
+                class: "btor2-constant-candidates".into(),
+            }
+        });
+    let cand_w = if spec.parser == ParserId::Btor2 { 3 } else { 0 };
     if with_hostile {
         let hostile = hostile_strategy(spec.parser).prop_map(move |bytes| Input {
             spec,
@@ -698,6 +728,7 @@ pub fn input_for_spec(spec: Spec, max_items: usize, with_hostile: bool) -> Boxed
             16 => hostile,
             2 => prefixed,
             3 => repeated,
+            cand_w => candidates,
         ]
         .boxed()
     } else {
@@ -708,6 +739,7 @@ pub fn input_for_spec(spec: Spec, max_items: usize, with_hostile: bool) -> Boxed
             6 => arbitrary,
             2 => spliced,
             1 => prefixed,
+            cand_w => candidates,
         ]
         .boxed()
     }
